@@ -41,6 +41,7 @@ class Tally:
         self.inconclusive = Counter()
         self.counters = Counter()
         self.maxima = {}
+        self.timeouts = []
 
     def top(self, name, v):
         if v > self.maxima.get(name, -1):
@@ -254,13 +255,12 @@ def judge_run(T, m, run):
     return bad
 
 
-def judge_job(T, m, res, all_results):
+def judge_job(T, m, res, index):
     if res.get("timeout"):
         # simplification (or anything else) did not finish in the generous per-job budget
         T.inconclusive["timeout"] += 1
         T.evaluations += 1
-        if len(T.samples) < 8:
-            T.samples.append({"timeout": True, "fuzzer": m["fuzzer"], "property": m["spec"], "expectation": m["expectation"]})
+        T.timeouts.append({"fuzzer": m["fuzzer"], "property": m["spec"], "expectation": m["expectation"], "seeds": res.get("seeds"), "cross_process_copy": "dup_of" in m})
         return
     if "died" in res:
         T.evaluations += 1
@@ -279,15 +279,19 @@ def judge_job(T, m, res, all_results):
     if res["mode"] != m["mode"]:
         T.violate("C16|expectation-keyword-maps-to-wrong-mode", witness(m, observed=res["mode"]))
     if "dup_of" in m:
-        # second process: only the outcomes are compared with the original's
-        orig = all_results.get(m["dup_of"], {})
-        for a, b in zip(orig.get("runs", []), res.get("runs", [])):
+        # second process: only the outcomes are compared with the original's, run by run
+        orig = index.get(m["dup_of"], {"runs": {}, "loops": {}})
+        for b in res.get("runs", []):
+            a = orig["runs"].get((b["seed"], b["max_success"]))
+            if a is None:
+                continue
             T.counters["determinism_comparisons"] += 1
             T.counters["cross_process_comparisons"] += 1
             if a["outcome"] != b["outcome"]:
                 T.violate("C16|nondeterministic|process", witness(m, a, first=trim(a["outcome"]), other=trim(b["outcome"])))
-        if orig.get("loops") is not None and orig.get("loops") != res.get("loops"):
-            T.violate("C16|nondeterministic|process", witness(m, what="the independent sample/eval loops differ between two processes"))
+        for k, lp in res.get("loops", {}).items():
+            if k in orig["loops"] and orig["loops"][k] != lp:
+                T.violate("C16|nondeterministic|process", witness(m, {"seed": int(k)}, what="the independent sample/eval loops differ between two processes"))
         return
     T.counters["property_expectation_pairs"] += 1
     judged = {k: check_loop(T, m, int(k), lp) for k, lp in res["loops"].items()}
@@ -310,10 +314,42 @@ def run(tier="quick", seed=0, only=None):
     if only:
         jobs = [j for j in jobs if meta[j["id"]]["fuzzer"] in only]
     T = Tally()
-    # biggest first is not known in advance; shards of mixed jobs even out well enough
-    results = common.run_jobs(DRIVER, jobs, shards=min(common.NCPU, max(1, len(jobs))), per_job_timeout=float(os.environ.get("C16_TIMEOUT", TIERS[tier]["timeout"])))
+    timeout = float(os.environ.get("C16_TIMEOUT", TIERS[tier]["timeout"]))
+    results = common.run_jobs(DRIVER, jobs, shards=min(common.NCPU, max(1, len(jobs))), per_job_timeout=timeout)
+    # a job that produced nothing within the time-out is run again, one seed per job and without the
+    # parallel threads: a loaded machine or one expensive seed must not hide the other seeds, and a
+    # genuine non-termination is pinned to its seed. Only what times out again stays inconclusive.
+    parts = {j["id"]: [j["id"]] for j in jobs}
+    retry = []
     for j in jobs:
-        judge_job(T, meta[j["id"]], results.get(j["id"], {"harness_error": "no result"}), results)
+        if results.get(j["id"], {}).get("timeout") and len(j["seeds"]) > 1:
+            parts[j["id"]] = []
+            for sd in j["seeds"]:
+                rid = f"{j['id']}~{sd}"
+                retry.append(dict(j, id=rid, seeds=[sd], det_seeds=1, threads=min(1, j["threads"])))
+                meta[rid] = meta[j["id"]]
+                parts[j["id"]].append(rid)
+    if retry:
+        T.counters["jobs_retried_per_seed_after_timeout"] = len(retry)
+        results.update(common.run_jobs(DRIVER, retry, shards=min(common.NCPU, len(retry)), per_job_timeout=timeout))
+    for j in jobs + retry:
+        r = results.get(j["id"])
+        if isinstance(r, dict) and r.get("timeout"):
+            r["seeds"] = j["seeds"]
+    # originals indexed by run, for the cross-process copies
+    index = {}
+    for j in jobs:
+        if "dup_of" in meta[j["id"]]:
+            continue
+        ix = index.setdefault(j["id"], {"runs": {}, "loops": {}})
+        for pid in parts[j["id"]]:
+            r = results.get(pid, {})
+            for run_ in r.get("runs", []):
+                ix["runs"][(run_["seed"], run_["max_success"])] = run_
+            ix["loops"].update(r.get("loops", {}))
+    for j in jobs:
+        for pid in parts[j["id"]]:
+            judge_job(T, meta[j["id"]], results.get(pid, {"harness_error": "no result"}), index)
     props = {(m["fuzzer"], json.dumps(m["spec"], sort_keys=True)) for m in meta.values()}
     T.counters["properties"] = len(props)
     T.counters["fuzzers"] = len({m["fuzzer"] for m in meta.values()})
@@ -330,6 +366,7 @@ def run(tier="quick", seed=0, only=None):
         "violation_counts": dict(T.violation_counts),
         "inconclusive": dict(T.inconclusive),
         "counters": dict(T.counters),
+        "timeouts": T.timeouts[:50],
         "wall_s": round(time.time() - t0, 1),
     }
 
@@ -354,7 +391,7 @@ def main(argv=None):
     if r["violations"]:
         return 1
     if r["inconclusive"]:
-        print("INCONCLUSIVE", r["inconclusive"])
+        print("INCONCLUSIVE", r["inconclusive"], json.dumps(r.get("timeouts", [])[:10]))
         return 2
     print(f"OK property=C16 tier={a.tier} seed={a.seed} evaluations={r['evaluations']} wall={r['wall_s']}s")
     return 0
